@@ -79,6 +79,7 @@ def run(seed, tier, prop):
     res = common.new_result(seed)
     cfg = gen.swarm(seed, tier, prof.get("profile", "general"))
     K = 3 if tier == "quick" else 8
+    ref.QUAD_MAX_D[0] = 1 if tier == "quick" else 2
     fnd = Findings(prop)
     w0 = World(salt=seed, invariants=prof["invariants"], findings=fnd)
     g = gen.Gen(seed, cfg, w0)
